@@ -3,6 +3,7 @@
 package main
 
 import (
+	"bufio"
 	"bytes"
 	"context"
 	"crypto/tls"
@@ -745,6 +746,43 @@ func (in *inst) roundTrip(lst, src string, w []byte, wait time.Duration, hdr map
 			tr.TLSClientConfig = &tls.Config{InsecureSkipVerify: true}
 			tr.ForceAttemptHTTP2 = true
 		}
+		if hc := hdr["hdrcase"]; hc != "" && lst != "https" {
+			// the request written by hand: header names in lower or upper case (what h2-to-h1 gateways and some
+			// clients send; header names are case-insensitive)
+			nm := func(s string) string {
+				if hc == "lower" {
+					return strings.ToLower(s)
+				}
+				return strings.ToUpper(s)
+			}
+			var req string
+			if hdr["method"] == "GET" {
+				req = fmt.Sprintf("GET /dns-query?dns=%s HTTP/1.1\r\n%s: %s\r\n%s: application/dns-message\r\n\r\n",
+					base64.RawURLEncoding.EncodeToString(w), nm("Host"), addr, nm("Accept"))
+			} else {
+				req = fmt.Sprintf("POST /dns-query HTTP/1.1\r\n%s: %s\r\n%s: application/dns-message\r\n%s: %d\r\n\r\n%s",
+					nm("Host"), addr, nm("Content-Type"), nm("Content-Length"), len(w), w)
+			}
+			c, err := (&net.Dialer{LocalAddr: localTCP(src), Timeout: 3 * time.Second}).Dial("tcp", addr)
+			if err != nil {
+				return nil, 0, err
+			}
+			defer c.Close()
+			c.SetDeadline(time.Now().Add(wait))
+			if _, err := c.Write([]byte(req)); err != nil {
+				return nil, 0, err
+			}
+			resp, err := http.ReadResponse(bufio.NewReader(c), nil)
+			if err != nil {
+				return nil, 0, err
+			}
+			defer resp.Body.Close()
+			b, _ := io.ReadAll(io.LimitReader(resp.Body, 70000))
+			if resp.StatusCode != 200 {
+				return nil, resp.StatusCode, nil
+			}
+			return b, 200, nil
+		}
 		cl := &http.Client{Transport: tr, Timeout: wait}
 		if hdr["keep"] != "" { // a reverse proxy in front of the listener: few long-lived connections
 			v, _ := keepClients.LoadOrStore(in.name+"/"+lst, func() *http.Client {
@@ -763,7 +801,7 @@ func (in *inst) roundTrip(lst, src string, w []byte, wait time.Duration, hdr map
 			req.Header.Set("Content-Type", "application/dns-message")
 		}
 		for k, v := range hdr {
-			if k != "method" && k != "keep" {
+			if k != "method" && k != "keep" && k != "hdrcase" {
 				req.Header.Set(k, v)
 			}
 		}
